@@ -35,7 +35,7 @@ pub fn miri_cfg(id: &str, tier: Tier) -> Option<MiriCfg> {
         ("C06" | "C07" | "C10" | "C11" | "C12" | "C16" | "C18", Tier::Thorough) => Some(MiriCfg {
             lane: "miri",
             procs: 16,
-            cases_per_proc: 25,
+            cases_per_proc: 60,
             extra_flags: "",
         }),
         _ => None,
